@@ -1,16 +1,19 @@
 import Wayfind.Proofs.Reachable
 import Wayfind.Proofs.Corollaries
 import Wayfind.Proofs.SameLive
+import Wayfind.Proofs.Unique5
 
 /-! # C05 — routing depends only on the set of live templates
 Search half: two routers reachable through the API whose trees hold the same routes (up to how literal text is split
 across nodes) answer every search identically, for every constraint environment — whatever order, flags, dirty marks
 or radix splits their histories left.
-Status: the search half is proved on live templates (`C05_same_live_set_same_results`: same set of (template, data)
-pairs ⇒ identical results for every path and every constraint environment) for every history, and on stored routes. **Partial**: the printing half
-(`Display` equal) needs uniqueness of the canonical tree; it is tied by the FUN oracle (every drawing must be a
-function of the live set) over rebuilds in sorted order, all insertion orders of small subsets with detours, and
-repeated observations. -/
+Status: **both halves proved, for every history.** Search: `C05_same_live_set_same_results` (same set of
+(template, data) pairs ⇒ identical results for every path and every constraint environment). Printing:
+`C05_same_live_set_same_tree` — every reachable tree is *canonical* (`reachable_canon`: well-shaped, every sibling
+vector sorted, maximally compressed), two canonical trees storing the same keys have the same skeleton
+(`Node.skel_unique`; this is where maximal compression pins every literal label down), and `Display` sees only the
+skeleton. The FUN oracle (every drawing of the implementation must be a function of its live set) ties the real
+crate to this on every run. -/
 
 theorem C05_search_history_independent (env : Env) (r1 r2 : Router) (h1 : Reachable r1) (h2 : Reachable r2)
     (hsame : ∀ P i, Mem (Node.routes r1.root) P i ↔ Mem (Node.routes r2.root) P i) (path : Bytes) :
@@ -30,3 +33,24 @@ theorem C05_same_live_set_same_results (env : Env) (r1 r2 : Router) (L1 L2 : Lis
     (h21 : ∀ lt ∈ L2, ∃ lt' ∈ L1, lt'.template = lt.template ∧ lt'.data = lt.data) (path : Bytes) :
     r1.search env path = r2.search env path :=
   same_live_same_search env h1 h2 h12 h21 path
+
+/-- **Printing half.** Two routers holding the same set of templates — whatever the order of the insertions and whatever
+was inserted and deleted along the way — print identical trees (the drawing does not show data values). -/
+theorem C05_same_live_set_same_tree (r1 r2 : Router) (L1 L2 : List LiveT) (h1 : Live r1 L1) (h2 : Live r2 L2)
+    (h12 : ∀ lt ∈ L1, ∃ lt' ∈ L2, lt'.template = lt.template)
+    (h21 : ∀ lt ∈ L2, ∃ lt' ∈ L1, lt'.template = lt.template) :
+    r1.display = r2.display :=
+  same_live_same_display h1 h2 h12 h21
+
+/-- the tree layer of the same fact: canonical trees that store the same keys print identically -/
+theorem C05_canonical_tree_unique (n1 n2 : Node) (c1 : Canon n1) (c2 : Canon n2)
+    (h : ∀ K, wfParts K = true → (Node.find n1 K).isSome = (Node.find n2 K).isSome) :
+    Node.skel n1 = Node.skel n2 ∧ Node.display n1 = Node.display n2 :=
+  ⟨Node.skel_unique n1 n2 c1 c2 h, display_eq_of_keyEq n1 n2 c1 c2 h⟩
+
+/-- non-vacuity: two different insertion orders of `/ab`, `/ac` (as trees) are canonical and print the same -/
+example :
+    let i : Info := {template := [], data := 1, depth := 1, length := 3}
+    let a := Node.optimize (Node.insert (Node.optimize (Node.insert Node.empty [.stat [47, 97, 98]] i)) [.stat [47, 97, 99]] i)
+    let b := Node.optimize (Node.insert (Node.optimize (Node.insert Node.empty [.stat [47, 97, 99]] i)) [.stat [47, 97, 98]] i)
+    Node.skel a = Node.skel b := by rfl
